@@ -40,6 +40,7 @@ func main() {
 	keep := flag.Bool("keep", false, "keep SMT files")
 	dumpQ := flag.String("dump", "", "print the SMT query of the obligation whose name contains this text")
 	oblF := flag.String("obl", "", "authoring aid: only discharge obligations whose name contains one of these |-separated texts (the run is then partial)")
+	noLemmas := flag.Bool("nolemmas", false, "skip the lemma/table obligations (authoring convenience together with -func)")
 	flag.Parse()
 	start := time.Now()
 	seed := 0
@@ -150,6 +151,10 @@ func main() {
 	}
 	// lemmas and tables
 	lobls, lerrs := p.lemmaObligations(*prop)
+	if *noLemmas {
+		lobls, lerrs = nil, nil
+		partialRun = true
+	}
 	for _, e := range lerrs {
 		rep.addFailure("lemma", e, "lemma could not be generated")
 	}
